@@ -7,6 +7,9 @@
 // SAME viper instance (viper.Set / SetDefault / MergeConfigMap / MergeConfig of one leaf, an
 // environment variable set or unset, a re-read document, a new level of the global logger; never
 // viper.Reset) and call again; every answer is compared with the tree as it stood at the call.
+// A case may also have concurrent rounds (parallel.go): several goroutines (real threads) make
+// their calls at the same time, many times over, on the configuration standing still; every
+// distinct answer a goroutine saw is printed and judged like a sequential one.
 package c19
 
 import (
@@ -14,6 +17,7 @@ import (
 	"encoding/json"
 	"fmt"
 	"os"
+	"runtime"
 	"sort"
 	"strings"
 	"testing"
@@ -54,8 +58,9 @@ type Change struct {
 
 // Phase is a later stretch of a case: changes, then calls.
 type Phase struct {
-	Changes []Change `json:"changes"`
-	Queries []Query  `json:"queries"`
+	Changes  []Change  `json:"changes"`
+	Queries  []Query   `json:"queries"`
+	Parallel *Parallel `json:"parallel,omitempty"` // a concurrent round after the phase's calls
 }
 
 type Input struct {
@@ -63,6 +68,7 @@ type Input struct {
 	DefLevel int      `json:"deflevel"`
 	Leaves   []Leaf   `json:"leaves"`
 	Queries  []Query  `json:"queries"`
+	Parallel *Parallel `json:"parallel,omitempty"` // a concurrent round on the installed tree, after Queries
 	Later    []Phase  `json:"later,omitempty"`
 	Tags     []string `json:"tags,omitempty"`
 }
@@ -547,6 +553,14 @@ func applyChange(cur []Leaf, ch Change) []Leaf {
 	return cur
 }
 
+// phaseCalls: the calls of a phase, the sequential ones and those of its concurrent round.
+func phaseCalls(ph Phase) []Query {
+	if ph.Parallel == nil {
+		return ph.Queries
+	}
+	return append(append([]Query{}, ph.Queries...), ph.Parallel.flat()...)
+}
+
 // conflicts: the key would turn an inner node into a leaf or hang a leaf below a leaf; viper's
 // layers disagree on what shadows what there, and no such tree is generated.
 func conflicts(cur []Leaf, key []string) bool {
@@ -1027,6 +1041,12 @@ func classify(in Input) (tags []string, nontrivial bool, counts []string) {
 		}
 	}
 	segment(in.Leaves, in.Queries)
+	if in.Parallel != nil {
+		segment(in.Leaves, in.Parallel.flat())
+		for _, t := range in.Parallel.tags(len(in.Queries) == 0) {
+			set[t] = true
+		}
+	}
 
 	// histories: which keys changed, was a path through the changed level asked before and again after
 	through := func(q Query, key []string) (int, bool) {
@@ -1086,7 +1106,7 @@ func classify(in Input) (tags []string, nontrivial bool, counts []string) {
 					before = true
 				}
 			}
-			for _, q := range ph.Queries {
+			for _, q := range phaseCalls(ph) {
 				below, ok := through(q, key)
 				if !ok || !before {
 					continue
@@ -1108,6 +1128,14 @@ func classify(in Input) (tags []string, nontrivial bool, counts []string) {
 		}
 		segment(cur, ph.Queries)
 		asked = append(asked, ph.Queries...)
+		if ph.Parallel != nil {
+			segment(cur, ph.Parallel.flat())
+			for _, t := range ph.Parallel.tags(len(ph.Queries) == 0) {
+				set[t] = true
+			}
+			set["parallel:after-a-change"] = true
+			asked = append(asked, ph.Parallel.flat()...)
+		}
 	}
 	set["layer:"+in.Layer] = true
 	for t := range set {
@@ -1138,6 +1166,23 @@ func runCase(t *testing.T, col *Collector, in Input) {
 		col.Count("fn:" + q.Fn)
 	}
 
+	// the concurrent round on the installed tree
+	parTerms := []string{}
+	var observedPar [][]any
+	if in.Parallel != nil {
+		lists := runParallel(in.Parallel, col)
+		for _, l := range lists {
+			ts := make([]string, 0, len(l))
+			seen := make([]any, 0, len(l))
+			for _, a := range l {
+				ts = append(ts, a.term)
+				seen = append(seen, a.obs)
+			}
+			parTerms = append(parTerms, List(ts))
+			observedPar = append(observedPar, seen)
+		}
+	}
+
 	// later phases: the same viper instance, changed in place
 	later := make([]string, 0, len(in.Later))
 	observedLater := make([][]any, 0, len(in.Later))
@@ -1161,6 +1206,14 @@ func runCase(t *testing.T, col *Collector, in Input) {
 			po = append(po, obs)
 			col.Count("fn-after-change:" + q.Fn)
 		}
+		if ph.Parallel != nil { // printed as calls of this phase
+			for _, l := range runParallel(ph.Parallel, col) {
+				for _, a := range l {
+					pq = append(pq, a.term)
+					po = append(po, a.obs)
+				}
+			}
+		}
 		later = append(later, Pair(List(chterms), List(pq)))
 		observedLater = append(observedLater, po)
 	}
@@ -1181,16 +1234,19 @@ func runCase(t *testing.T, col *Collector, in Input) {
 	id := col.NextID()
 	col.Add(Case{
 		Term: Record("c_id", N(id), "c_cfg", List(leaves), "c_deflevel", Z(int64(in.DefLevel)), "c_queries", List(qterms),
-			"c_later", List(later)),
+			"c_parallel", List(parTerms), "c_later", List(later)),
 		Key: string(key), Nontrivial: nontrivial, Tags: tags,
-		Sample: map[string]any{"input": in, "observed": observed, "observed_later": observedLater},
+		Sample: map[string]any{"input": in, "observed": observed, "observed_parallel": observedPar, "observed_later": observedLater},
 	})
 }
 
 func TestC19(t *testing.T) {
 	col := NewCollector("C19", "Check.C19",
-		"configuration trees over 1-3 spines of depth 1-4 with the five hierarchical settings present / absent / zero / empty / malformed at every level, installed through one viper layer, and 4-8 calls of the real util functions per tree; a quarter of the cases go on as a history on the same viper instance (1-3 phases of changes at levels of paths already asked for - value set, changed, removed, document re-read, logger level - each followed by repeated and sibling calls); non-trivial = some call has a raw value configured at two or more of its candidate levels (so the choice of level decides the result), or a later phase changes a candidate key of a path asked for before the change and asked through again after it; distinct by full input text")
+		"configuration trees over 1-3 spines of depth 1-4 with the five hierarchical settings present / absent / zero / empty / malformed at every level, installed through one viper layer, and 4-8 calls of the real util functions per tree; a quarter of the cases go on as a history on the same viper instance (1-3 phases of changes at levels of paths already asked for - value set, changed, removed, document re-read, logger level - each followed by repeated and sibling calls); a tenth of the cases have a concurrent round (3-8 goroutines calling at the same time, 150-400 times over (one round in eight: ten times as many; twenty times as many when one case is replayed alone), on the configuration standing still: a ladder tree with values at 2-3 levels of 3-6 spines, a random tree, or the last phase of a history; on a fresh instance or after sequential calls; the same function or all five; every distinct answer seen is printed, and the calls are made once more one at a time afterwards); non-trivial = some call has a raw value configured at two or more of its candidate levels (so the choice of level decides the result), or a later phase changes a candidate key of a path asked for before the change and asked through again after it; distinct by full input text")
 	n := EnvInt("VERIF_N", 1500)
+	if runtime.GOMAXPROCS(0) < 4 { // the concurrent rounds want real parallelism
+		runtime.GOMAXPROCS(4)
+	}
 	// main.go's environment binding is one of the layers: start from a clean VOUCH_ namespace.
 	for _, kv := range os.Environ() {
 		if strings.HasPrefix(kv, "VOUCH_") {
@@ -1205,7 +1261,11 @@ func TestC19(t *testing.T) {
 	rng := NewRand(Seed())
 	for i := 0; i < n; i++ {
 		g := &gen{r: rng.Fork()}
-		if k := g.r.Intn(20); k < 5 {
+		if k := g.r.Intn(20); k < 5 && g.r.Chance(2, 5) { // a tenth of the cases: concurrent rounds
+			in := g.parallel()
+			in.Tags = append(in.Tags, "gen:parallel")
+			ins = append(ins, in)
+		} else if k < 5 {
 			in := g.history()
 			in.Tags = append(in.Tags, "gen:history")
 			ins = append(ins, in)
